@@ -95,3 +95,28 @@ class TruthTables(Harness):
 
 
 HARNESSES = [TruthTables()]
+
+# ---- deductive contracts on the (in)equality evaluator and its grounding ------------------------------------
+GPC = "models.grounded_precondition:GroundedPrecondition."
+_EQ = "seq(preconditions.equality_preconditions)"
+_NE = "seq(preconditions.inequality_preconditions)"
+CONTRACTS[GPC + "_validate_equality_holds"] = dict(
+    prop="C02", params={"preconditions": ("ref", "Precondition")}, returns="bool", allocates=False,
+    # (in)equality by object identity; for an 'or' node the pairs are disjuncts (empty disjunction false), otherwise conjuncts
+    ensures=[f"implies(preconditions.binary_operator == 'or', result == (exists_int(lambda i: {_EQ}[i][0] == {_EQ}[i][1], 0, len({_EQ})) "
+             f"or exists_int(lambda i: {_NE}[i][0] != {_NE}[i][1], 0, len({_NE}))))",
+             f"implies(preconditions.binary_operator != 'or', result == (forall_int(lambda i: {_EQ}[i][0] == {_EQ}[i][1], 0, len({_EQ})) "
+             f"and forall_int(lambda i: {_NE}[i][0] != {_NE}[i][1], 0, len({_NE}))))"],
+    raises={}, modifies=[])
+CONTRACTS[GPC + "_ground_equality_objects"] = dict(
+    prop="C02", params={"equality_preconditions": ("ref", "set_pairs"), "parameters_map": ("ref", "dict_str_str")},
+    returns=("seq", ("tuple", ("str", "str"))),
+    # substitution of the call's arguments, pair by pair; nothing added or omitted; KeyError iff some name is unmapped
+    ensures=["len(result) == len(seq(equality_preconditions))",
+             "forall_int(lambda i: result[i][0] == parameters_map[seq(equality_preconditions)[i][0]] and "
+             "result[i][1] == parameters_map[seq(equality_preconditions)[i][1]], 0, len(result))"],
+    raises={"KeyError": "exists_int(lambda i: seq(equality_preconditions)[i][0] not in parameters_map or "
+                        "seq(equality_preconditions)[i][1] not in parameters_map, 0, len(seq(equality_preconditions)))"},
+    must_raise=["exists_int(lambda i: seq(equality_preconditions)[i][0] not in parameters_map or "
+                "seq(equality_preconditions)[i][1] not in parameters_map, 0, len(seq(equality_preconditions)))"],
+    modifies=[])
